@@ -211,6 +211,58 @@ func drive(id, tier string) int {
 	}
 	wg.Wait()
 
+	// CPU-budget alarms are confirmed alone: process CPU time is not entirely
+	// independent of what else the machine is doing (garbage collection and
+	// page faults cost more under memory pressure), so a case that exceeded its
+	// budget while 15 other workers were running is re-run in a fresh worker
+	// with nothing beside it; only an alarm that recurs is reported.
+	cpuClass := func(cl string) bool { return strings.Contains(cl, "/cpu/") || strings.Contains(cl, "/hang/") }
+	unconfirmed := 0
+	for b := range outcomes {
+		o := &outcomes[b]
+		if o.died && o.hang {
+			idx, _ := parseCur(o.cur)
+			if idx < 0 {
+				continue
+			}
+			again := runBatchOne(bin, id, tier, seed, b, plan.PerBatch, runDir, repDir, wallLimit, idx)
+			if again.died && again.hang {
+				continue // confirmed
+			}
+			// not reproduced: the batch stays incomplete, the alarm is dropped
+			o.hang, o.died, o.timedOut = false, false, true
+			unconfirmed++
+			fmt.Printf("INCONCLUSIVE property=%s batch=%d case %d exceeded its CPU budget while other workers were running but not when re-run alone; the rest of the batch was not executed\n", id, b, idx)
+			continue
+		}
+		if o.res == nil {
+			continue
+		}
+		var keep []core.Violation
+		for _, v := range o.res.Violations {
+			if !cpuClass(v.Class) {
+				keep = append(keep, v)
+				continue
+			}
+			again := runBatchOne(bin, id, tier, seed, v.Batch, plan.PerBatch, runDir, repDir, wallLimit, v.Index)
+			confirmed := again.died && again.hang
+			if again.res != nil {
+				for _, v2 := range again.res.Violations {
+					if v2.Class == v.Class {
+						confirmed = true
+					}
+				}
+			}
+			if confirmed {
+				keep = append(keep, v)
+			} else {
+				unconfirmed++
+				fmt.Printf("INCONCLUSIVE property=%s batch=%d case %d: %s while other workers were running, not when re-run alone\n", id, v.Batch, v.Index, oneLine(trunc(v.Msg, 160)))
+			}
+		}
+		o.res.Violations = keep
+	}
+
 	// aggregate
 	known := loadFindings()
 	nt := map[uint64]struct{}{}
@@ -300,6 +352,9 @@ func drive(id, tier string) int {
 		if v.Input != "" {
 			fmt.Printf("  input: %s\n", oneLine(trunc(v.Input, 400)))
 		}
+	}
+	if unconfirmed > 0 {
+		inconc["cpu budget exceeded under load, not reproduced alone"] += unconfirmed
 	}
 	for k, v := range inconc {
 		fmt.Printf("INCONCLUSIVE property=%s %s (x%d)\n", id, k, v)
@@ -429,11 +484,22 @@ func trunc(s string, n int) string {
 }
 
 func runBatch(bin, id, tier string, seed int64, b, n int, runDir, repDir string, limit time.Duration) batchOutcome {
+	return runBatchOne(bin, id, tier, seed, b, n, runDir, repDir, limit, -1)
+}
+
+// runBatchOne runs a whole batch (only < 0) or exactly one case of it.
+func runBatchOne(bin, id, tier string, seed int64, b, n int, runDir, repDir string, limit time.Duration, only int) batchOutcome {
 	out := filepath.Join(runDir, fmt.Sprintf("b%d.json", b))
 	cur := filepath.Join(repDir, fmt.Sprintf("current-%d-%d.json", os.Getpid(), b))
+	args := []string{"worker", id, tier, strconv.FormatInt(seed, 10), strconv.Itoa(b), strconv.Itoa(n), out, cur}
+	if only >= 0 {
+		out = filepath.Join(runDir, fmt.Sprintf("b%d-only%d.json", b, only))
+		cur = filepath.Join(repDir, fmt.Sprintf("current-%d-%d-only%d.json", os.Getpid(), b, only))
+		args = []string{"worker", id, tier, strconv.FormatInt(seed, 10), strconv.Itoa(b), strconv.Itoa(n), out, cur, strconv.Itoa(only)}
+	}
 	ctx, cancel := context.WithTimeout(context.Background(), limit)
 	defer cancel()
-	cmd := exec.CommandContext(ctx, bin, "worker", id, tier, strconv.FormatInt(seed, 10), strconv.Itoa(b), strconv.Itoa(n), out, cur)
+	cmd := exec.CommandContext(ctx, bin, args...)
 	var stderr bytes.Buffer
 	cmd.Stderr = &stderr
 	cmd.Stdout = &stderr
